@@ -27,6 +27,7 @@ type ClientOpts struct {
 	KeepaliveNs    int64  `json:"keepalive_ns"`
 	ConnectTimeout int    `json:"connect_timeout_s"`
 	Logger         int    `json:"logger"` // 0 none, 1 recording, 2 failing
+	WebSocket      bool   `json:"websocket,omitempty"`
 }
 
 const (
@@ -34,6 +35,13 @@ const (
 	TLSCfgRoots
 	TLSCfgSkipVerify
 )
+
+func addrFor(o ClientOpts) string {
+	if o.WebSocket {
+		return SimWSAddr
+	}
+	return SimAddr
+}
 
 func DefaultClientOpts() ClientOpts {
 	return ClientOpts{Insecure: true, User: "test", Secret: "secret", Resource: "res", KeepaliveNs: int64(30*time.Second) + 1, ConnectTimeout: 15}
@@ -116,7 +124,7 @@ func packetInfo(p stanza.Packet) (kind, id, typ string) {
 func NewCW(e *Engine, o ClientOpts, certs *CertSet) *CW {
 	w := &CW{e: e, Opts: o, Certs: certs}
 	cfg := &xmpp.Config{
-		TransportConfiguration: xmpp.TransportConfiguration{Address: SimAddr},
+		TransportConfiguration: xmpp.TransportConfiguration{Address: addrFor(o)},
 		Jid:                    o.User + "@" + SimDomain,
 		Insecure:               o.Insecure,
 		KeepaliveInterval:      time.Duration(o.KeepaliveNs),
